@@ -690,7 +690,7 @@ func (w *World) LoadRepoContracts() error {
 // spec files
 
 var specKeywords = map[string]bool{"spec": true, "uninterp": true, "axiom": true, "lemma": true, "requires": true,
-	"ensures": true, "let": true, "canary": true, "rec": true, "trusted-spec": true}
+	"ensures": true, "let": true, "canary": true, "rec": true, "trusted-spec": true, "witness": true}
 
 func (w *World) LoadSpecDir(dir string) error {
 	files, _ := filepath.Glob(filepath.Join(dir, "*.spec"))
@@ -795,7 +795,7 @@ func (w *World) LoadSpecFile(path string) error {
 				return fail(err)
 			}
 			cur.Steps = append(cur.Steps, LemmaStep{Kind: word, Name: name, E: e, Text: text, Line: l.line})
-		case "let":
+		case "let", "witness":
 			if cur == nil {
 				return fail(fmt.Errorf("let outside lemma"))
 			}
@@ -807,7 +807,7 @@ func (w *World) LoadSpecFile(path string) error {
 			if err != nil {
 				return fail(err)
 			}
-			cur.Steps = append(cur.Steps, LemmaStep{Kind: "let", Name: strings.TrimSpace(rest[:i]), E: e, Text: rest, Line: l.line})
+			cur.Steps = append(cur.Steps, LemmaStep{Kind: word, Name: strings.TrimSpace(rest[:i]), E: e, Text: rest, Line: l.line})
 		default:
 			return fail(fmt.Errorf("unknown keyword %q", word))
 		}
